@@ -583,6 +583,75 @@ def passes_param(view, f, pidx):
     return out
 
 
+def pred_chain(view, f, pidx, depth=0):
+    """where does the closure parameter pidx of f end up?  -> (terminals [(fn key, bb, callee key)], problems [str], hops [str])
+    a hop is: handing the parameter on as an argument (crate callee: followed; external callee: terminal), or capturing it
+    in an adapter closure that invokes it exactly once on every path, outside loops, and returns its verdict unchanged -
+    the adapter then is the predicate and is followed to where it is handed"""
+    prog, vp, fx = view.prog, view.vp, view.fx
+    terms, probs, hops = [], [], []
+    if depth > 6:
+        return terms, ["chain too deep"], hops
+
+    def is_p(x):
+        x = strip(x)
+        while x[0] in ("ref", "deref"):
+            x = strip(x[1])
+        return x[0] == "param" and x[1] == f.key and x[2] == pidx
+
+    def follow(owner, bb, t, argpos, what):
+        ci = fx.call_info(owner, bb)
+        if owner.cfg.in_loop(bb):
+            probs.append("%s is handed on inside a loop of %s" % (what, short(owner.key)))
+        if bb != 0 and owner.cfg.escape_path(0, {bb}) is not None:
+            probs.append("a path through %s does not hand %s on" % (short(owner.key), what))
+        if ci.local_callee:
+            hops.append(short(ci.local_callee))
+            t2, p2, h2 = pred_chain(view, prog.fn(ci.local_callee), argpos + 1, depth + 1)
+            terms.extend(t2)
+            probs.extend(p2)
+            hops.extend(h2)
+        else:
+            hops.append(ci.key.split("::")[-1])
+            terms.append((owner.key, bb, ci.key))
+
+    fam = prog.family(f.key)
+    for g in fam:
+        for bb, t in g.calls():
+            # invoked ?
+            if "func" in t and (t["func"].get("trait") or "").startswith("std::ops::Fn") and t["args"] and is_p(vp.operand(g, t["args"][0])):
+                if g is f:
+                    probs.append("%s invokes the predicate itself" % short(f.key))
+                    continue
+                # adapter closure
+                calls = [(b2, t2) for b2, t2 in g.calls() if "func" in t2 and (t2["func"].get("trait") or "").startswith("std::ops::Fn")
+                         and t2["args"] and is_p(vp.operand(g, t2["args"][0]))]
+                r = strip(ret_term(view, g))
+                once = len(calls) == 1 and not g.cfg.loops and (calls[0][0] == 0 or g.cfg.escape_path(0, {calls[0][0]}) is None)
+                same = r[0] == "call" and r[1].startswith("std::ops::Fn") and len(r) > 3 and r[3] == (g.key, calls[0][0])
+                if not once:
+                    probs.append("the adapter closure calls the predicate %d times / not on every path" % len(calls))
+                if not same:
+                    probs.append("the adapter closure alters the verdict (%s)" % term_str(r)[:50])
+                use = vp.closure_use(g.key)
+                if use is None:
+                    probs.append("the adapter closure is not handed to a call")
+                    continue
+                pf, ubb, ut, argpos = use
+                if (g.key, "adapter") in [(h, "adapter") for h in hops]:
+                    continue
+                hops.append("adapter closure")
+                follow(pf, ubb, ut, argpos, "the adapter closure")
+                continue
+            # handed on as an argument ?
+            for i, a in enumerate(t["args"]):
+                if i == 0 and "func" in t and (t["func"].get("trait") or "").startswith("std::ops::Fn"):
+                    continue
+                if is_p(vp.operand(g, a)):
+                    follow(g, bb, t, i, "the predicate")
+    return terms, probs, hops
+
+
 def r_once(ctx, view):
     prog = view.prog
     vp = view.vp
@@ -615,18 +684,33 @@ def r_once(ctx, view):
     # R-IFF: true edge removes that position and returns the result, false edge is effect-free and returns None
     if calls:
         g, bb, t = calls[0]
-        dest = t["dest"]["local"]
-        sw = [bi for bi in sorted(f.cfg.reach) if f.term(bi)["k"] == "switch" and f.term(bi)["discr"]["k"] in ("copy", "move")
-              and f.term(bi)["discr"]["place"]["local"] == dest]
+        pterm = vp.call_term(g, bb, t)
+        # the branch on the predicate's answer, however it is spelled (`if f(..)`, `let keep = f(..); if !keep { return None }`)
+        sw = None
+        for bi in sorted(f.cfg.reach):
+            tsw = f.term(bi)
+            if tsw["k"] != "switch" or len(f.cfg.succ[bi]) < 2:
+                continue
+            d = strip(vp.operand(f, tsw["discr"]))
+            neg = False
+            while d[0] == "unop" and d[1] == "Not":
+                d = strip(d[2])
+                neg = not neg
+            if d[0] == "call" and d[:3] == pterm[:3] and d[3] == pterm[3]:
+                sw = (bi, neg)
+                break
         okk, whyk = False, "no branch on the predicate's result"
         if sw:
             tsw = f.term(sw[0])
             zero = [tb for v, tb in tsw["targets"] if v == 0][0]
             tt = tsw["otherwise"]
+            if sw[1]:
+                zero, tt = tt, zero   # the branch tests the negation
+            RET = return_locals(f)
             rem = [bb2 for bb2, _ in f.calls() if fx.call_info(f, bb2).local_callee == "store::Store::swap_remove"
                    and is_param(fx.args_vp(fx.call_info(f, bb2))[1], 2)]
             ok_true = bool(rem) and f.cfg.escape_path(sw[0], set(rem), stop_edges={(sw[0], zero)}) is None and all(
-                f.term(r)["dest"]["local"] == 0 for r in rem)
+                f.term(r)["dest"]["local"] in RET and not f.term(r)["dest"]["proj"] for r in rem)
             fside = blocks_between(f, zero, set())
             eff = [e for e in fx.events(f) if e["bb"] in fside and (e["kind"] in ("tw", "mw") or (e["kind"] == "call" and fx.effects[e["callee"]] & {"TW", "MW"}))]
             from .rules_order import returns_none
@@ -634,32 +718,21 @@ def r_once(ctx, view):
             okk = ok_true and ok_false
             whyk = "accepted => swap_remove(position) returned: %s; refused => no write, None: %s" % (ok_true, ok_false)
         ctx.ob("R-IFF", "Store::swap_remove_if:remove-iff-accepted", okk, f.loc(), whyk)
-    # retain: adapter closure calls the predicate exactly once per element; retain_mut hands it to retain2 once
-    f = prog.fn("store::Store::retain")
-    ctx.anchor("Store::retain", f is not None)
-    cl = prog.closures_of(f.key)
-    ok, why = False, "no adapter closure"
-    if len(cl) == 1:
-        c = cl[0]
-        ucs = [(bb, t) for bb, t in c.calls() if "func" in t and (t["func"].get("trait") or "").startswith("std::ops::Fn")]
-        ok = len(ucs) == 1 and not c.cfg.loops and c.cfg.escape_path(0, {ucs[0][0]}) is None if ucs and ucs[0][0] != 0 else len(ucs) == 1
-        r = ret_term(view, c)
-        ok = ok and r[0] == "call" and (r[1].startswith("std::ops::Fn"))
-        why = "adapter closure = predicate(&*i, &*p): one call, result returned unchanged" if ok else "adapter closure calls the predicate %d times or alters its verdict (%s)" % (len(ucs), term_str(r)[:60])
-    ctx.ob("R-ONCE", "Store::retain:adapter-once", ok, f.loc(), why)
-    pp = [p for p in passes_param(view, f, 2)]
-    # retain forwards through retain_mut(closure)
-    fm = prog.fn("store::Store::retain_mut")
-    ctx.anchor("Store::retain_mut", fm is not None)
-    pp = passes_param(view, fm, 2)
-    ok = len(pp) == 1 and pp[0][1].endswith("retain2") and not fm.cfg.in_loop(pp[0][0]) and fm.cfg.escape_path(0, {pp[0][0]}) is None if pp and pp[0][0] != 0 else (len(pp) == 1 and pp[0][1].endswith("retain2"))
-    ctx.ob("R-ONCE", "Store::retain_mut:predicate-to-retain2-once", bool(ok), fm.loc(), "predicate handed to IndexMap::retain2 exactly once: %s" % pp)
-    rc = [bb for bb, _ in f.calls() if fx.call_info(f, bb).local_callee == "store::Store::retain_mut"]
-    ctx.ob("R-ONCE", "Store::retain:via-retain_mut-once", len(rc) == 1 and not f.cfg.loops, f.loc(), "%d call(s) of retain_mut" % len(rc))
+    # retain / retain_mut: from the queue's parameter the predicate reaches IndexMap::retain2 exactly once, through
+    # plain forwarding or through adapter closures that call it once and return its verdict unchanged - whatever the
+    # number of intermediate functions (Store::retain may or may not exist)
+    for Q in QUEUES:
+        for nm in ("retain", "retain_mut"):
+            q = prog.fn("%s::%s" % (Q, nm))
+            ctx.anchor("%s::%s" % (Q, nm), q is not None)
+            terms, probs, hops = pred_chain(view, q, 2)
+            ok = not probs and len(terms) == 1 and terms[0][2].endswith("retain2")
+            ctx.ob("R-ONCE", "%s::%s:predicate-chain" % (QNAME[Q], nm), ok, q.loc(),
+                   ("the predicate reaches IndexMap::retain2 exactly once, every hop on every path and outside loops (%s)" % " -> ".join(hops)) if ok else
+                   "predicate chain: terminals %s; problems: %s" % ([(short(t[0]), t[2].split("::")[-1]) for t in terms], "; ".join(probs) or "-"))
     # queue level: predicate parameters are only forwarded, unmodified, to the store primitive
-    table = {PQ: (("retain", "store::Store::retain", 2), ("retain_mut", "store::Store::retain_mut", 2), ("pop_if", "store::Store::swap_remove_if", 2)),
-             DPQ: (("retain", "store::Store::retain", 2), ("retain_mut", "store::Store::retain_mut", 2),
-                   ("pop_min_if", "store::Store::swap_remove_if", 2), ("pop_max_if", "store::Store::swap_remove_if", 2))}
+    table = {PQ: (("pop_if", "store::Store::swap_remove_if", 2),),
+             DPQ: (("pop_min_if", "store::Store::swap_remove_if", 2), ("pop_max_if", "store::Store::swap_remove_if", 2))}
     for Q in QUEUES:
         for (nm, callee, pidx) in table[Q]:
             q = prog.fn("%s::%s" % (Q, nm))
@@ -786,7 +859,23 @@ def r_serde(ctx, view):
         okel = any(x.replace(" ", "") in ("(&I,&P)",) for x in tys)
     ctx.ob("R-SERDE", "Store::serialize:element-is-(item,priority)", okel, ser.loc(), "serialize_element::<%s>" % (tys if el else "?"))
     it = [t for bb, t in ser.calls() if "func" in t and t["func"]["name"] == "into_iter"]
-    okit = bool(it) and all(component(vp.operand(ser, t["args"][0])) and component(vp.operand(ser, t["args"][0]))[0] == "map" for t in it)
+    def over_map(x):
+        # the map itself, or a read-only whole-map view of it (`&self.map`, `self.map.iter()`)
+        x = strip(x)
+        hops = 0
+        while hops < 6:
+            hops += 1
+            while x[0] in ("ref", "deref"):
+                x = strip(x[1])
+            c = component(x)
+            if c:
+                return c[0] == "map"
+            if x[0] == "call" and x[1].split("::")[-1] in ("iter", "into_iter", "by_ref", "as_slice") and len(x[2]) == 1:
+                x = strip(x[2][0])
+                continue
+            return False
+        return False
+    okit = bool(it) and all(over_map(vp.operand(ser, t["args"][0])) for t in it)
     foot = set()
     for bb, t in ser.calls():
         for a in t["args"]:
@@ -1020,6 +1109,7 @@ def r_readers(ctx, view):
         ctx.anchor("Store::" + name, f is not None)
         r = ret_term(view, f)
         cs = [c for c in _calls_in(r) if c[2] and component(c[2][0]) and component(c[2][0])[0] == "map"]
+        cs = list({(c[1], c[3] if len(c) > 3 else None): c for c in cs}.values())   # one lookup however often its result is mentioned
         ok = len(cs) == 1 and cs[0][1].split("::")[-1] in lookups and len(cs[0][2]) == 2 and is_param(cs[0][2][1], 2)
         ob("Store::" + name, ok, f, "%s(item) is the map lookup %s on the `item` parameter" % (name, [c[1].split("::")[-1] for c in cs]))
     for key, ctor, call in (("store::Store::iter", "Iter", "iter"), ("<store::Store as IntoIterator>::into_iter", "IntoIter", "into_iter"),
